@@ -7,7 +7,7 @@ pub const SMALL_SIZES: [usize; 10] = [2, 4, 6, 30, 62, 64, 66, 126, 128, 130];
 /// shards of 5 .. 18 blocks of 64 bytes, every residue of the block count modulo 4, with and without a partial
 /// last block (a kernel loop unrolled over several blocks shows its remainder handling only here)
 /// shards of 64 blocks and more (a kernel that switches strategy for long shards shows it only here)
-pub const LONG_SIZES: [usize; 4] = [4096, 4098, 4160, 8222];
+pub const LONG_SIZES: [usize; 10] = [4096, 4098, 4160, 8222, 4034, 4094, 8130, 8190, 2046, 2050];
 pub const MULTI_BLOCK_SIZES: [usize; 9] = [258, 320, 322, 384, 448, 450, 576, 706, 1090];
 
 #[derive(Clone, Debug)]
